@@ -536,6 +536,88 @@ def reproduces(w, rp):
     return False, ex, rr
 
 
+def concrete_eval(kind, name, cargs):
+    """the S-kernel on concrete operands -> rendered value ['N'|'B'|'T', v] or ['panic'|'err', ..]"""
+    I = K.new_interp("debug")
+    I.files_in_scope = (K.XFUNC, K.XMODEL, K.XEVAL)
+
+    def mk(a):
+        k, v = a
+        if k == "T":
+            return V("Text", kernel.from_pystr(v))
+        if k == "N":
+            return V("Number", float(v))
+        return V("Boolean", bool(v))
+
+    def thunk(I):
+        args = [mk(a) for a in cargs]
+        if kind == "fn":
+            fn = I.dump.fns[(K.XFUNC, FN_RUST[name])]
+            return I.call_fn(K.XFUNC, fn, [SVec(args), "node", "context"])
+        if kind == "op":
+            return Ok(I.call_method_of(args[0], name, args))
+        fn = I.dump.fns[(K.XEVAL, CMP_RUST[name])]
+        r = I.call_fn(K.XEVAL, fn, [args[0], args[1]])
+        return Ok(V("Boolean", r.fields[0])) if r.variant == "Ok" else r
+    paths = I.explore(thunk)
+    if len(paths) != 1:
+        raise kernel.Unsupported("concrete run forked")
+    p = paths[0]
+    if p["kind"] == "panic":
+        return ["panic", p["msg"]]
+    r = p["value"]
+    if r.variant != "Ok":
+        return ["err", repr(r)[:60]]
+    v = r.fields[0]
+    x = v.fields[0]
+    if v.variant == "Number":
+        return ["N", repr(float(x))]
+    if v.variant == "Boolean":
+        return ["B", bool(x)]
+    if isinstance(x, kstd.OpaqueStr) or any(isinstance(y, kstd.OpaqueStr) for y in x):
+        return ["T?", None]
+    return ["T", kernel.concrete_str(x)]
+
+
+def translator_validation(rp, seed, n):
+    import random
+    rng = random.Random(seed)
+    strs = ["", " ", "a", "ab", "a b", "  x  ", "\u00e9", "\U0001F600z", "12", " 7 ", "1.5", "-3", "+1", "1e2", ".5", "abc", "b", "\t\n", "\u00a0"]
+    nums = [0.0, -0.0, 1.0, 1.5, -1.5, 0.5, -0.5, 2.5, 3.0, float("nan"), float("inf"), float("-inf"), 1e300, 100.0, 0.1, 123456789.125, 0.49999999999999994, 4503599627370497.0]
+    fns1 = ["string-length", "normalize-space", "number", "boolean", "not", "string", "floor", "ceiling", "round"]
+    fns2 = ["starts-with", "contains", "substring-before", "substring-after", "concat"]
+    done = 0
+
+    def val(kinds="TNB"):
+        k = rng.choice(kinds)
+        return [k, rng.choice(strs) if k == "T" else repr(rng.choice(nums)) if k == "N" else rng.choice([True, False])]
+    for _ in range(n):
+        c = rng.randrange(6)
+        if c == 0:
+            kind, name, args = "fn", rng.choice(fns1), [val()]
+        elif c == 1:
+            kind, name, args = "fn", rng.choice(fns2), [val("T"), val("T")]
+        elif c == 2:
+            kind, name, args = "fn", "substring", [val("T"), val("N")] + ([val("N")] if rng.random() < 0.6 else [])
+        elif c == 3:
+            kind, name, args = "fn", "translate", [val("T"), val("T"), val("T")]
+        elif c == 4:
+            kind, name, args = "op", rng.choice(["add", "sub", "mul", "div", "rem", "neg"]), [val("NB"), val("NB")]
+            if name == "neg":
+                args = args[:1]
+        else:
+            kind, name, args = "cmp", rng.choice(list(CMP_RUST)), [val(), val()]
+        if any(a[0] == "T" and "'" in a[1] for a in args):
+            continue
+        pred = concrete_eval(kind, name, args)
+        w = {"kind": kind, "name": name, "args": args, "model": ["ok", pred] if pred[0] in ("N", "B", "T", "T?") else [pred[0], pred[1]]}
+        ok, ex, rr = reproduces(w, rp)
+        if not ok:
+            raise common.Inconclusive("model mismatch on %s: interpreter %s, real %s" % (ex, pred, str(rr)[:160]))
+        done += 1
+    return done
+
+
 def arity_obligations(rep, I):
     """func::table() ranges against XPath 1.0 section 4, read from the dump"""
     fn = I.dump.fns[(K.XFUNC, "table")]
@@ -592,6 +674,12 @@ def main():
     rep.assumptions += ["std models of engine/sx/kstd.py (str::parse::<f64> accept language, f64::round = ties away, `as usize` saturating, split_whitespace = Unicode White_Space, str::len in bytes, split_at on byte boundaries)",
                         "XPath 1.0 sections 3.4, 3.5, 4.2-4.4 as written in this file (spec_fn, spec_op, spec_cmp, xp_round)"]
     known_open, _ = common.known_findings("C09")
+    try:
+        rep.tv_cases = translator_validation(rp, args.seed, 150 if args.tier == "quick" else 600)
+        rep.extra["translator_validation"] = "%d concrete applications: S-kernel (std models) == xml_xpath::query" % rep.tv_cases
+    except (common.Inconclusive, kernel.Unsupported) as e:
+        rep.inconclusive.append(str(e))
+        return rep.finish()
     I0 = K.new_interp("debug")
     try:
         entries, bad = arity_obligations(rep, I0)
